@@ -67,6 +67,11 @@ claim("C18",
       "tidwall/resp Conn/Writer is modelled by a RESP encoder writing to the fake connection; glob matching is uninterpreted. Bounds in the evidence assumptions.",
       "DESIGN.md C18")
 
+claim("C02",
+      "The real log store (Write/Sync/Restore/Truncate) runs over an in-memory file with a durability watermark implementing the repository's ReadWriter seam: round trip of arbitrary commands in arbitrary databases, durability under always, restore of the image obtained by cutting the file at every byte offset (prefix property), and recover-then-durable after a torn record; at server level the real dispatcher must log exactly the successful write commands under the database they ran in (TCP and embedded), and a fresh server restoring the log through the real engine serves the same keys in the same databases.",
+      "The preamble (JSON dump) path and real files are not covered here. tidwall/resp is modelled by a strict RESP parser. Bounds in the evidence assumptions.",
+      "DESIGN.md C02")
+
 # every property without a claim is listed as not applicable (yet) with its reason
 NA_REASONS = {}
 for n in range(1, 21):
